@@ -9,6 +9,7 @@ CONSTANTS
   Listeners <- L0
   MaxUser = 0
   Waits <- W0
+  Timed = FALSE
 INVARIANT TypeOK
 INVARIANT CircuitsMatch
 INVARIANT StreamsMatch
